@@ -170,7 +170,7 @@ def parse_unit(path, _depth=0, contract_only=False):
                 # encoding options of the verifier for this item (e.g. loop_isolation(false): the facts known before a loop
                 # stay known inside it); only `#[verifier::loop_isolation(..)]` / `#[verifier::allow_complex_invariants]`
                 for a in re.findall(r'#\[[^\]]*\]', rest):
-                    if a not in ('#[verifier::loop_isolation(false)]', '#[verifier::allow_complex_invariants]'):
+                    if a not in ('#[verifier::loop_isolation(false)]', '#[verifier::allow_complex_invariants]') and not re.fullmatch(r'#\[verifier::reject_recursive_types\(\w+\)\]', a):
                         raise UnitError('%s:%d: verifier attribute not allowed: %s' % (path, ln, a))
                     ext.verifier_attrs.append(a)
             elif key == 'contract-only':
